@@ -133,6 +133,19 @@ def ev_mul(w):
     return (dig_plane(w.P),), dig_wf(w.W)
 
 
+def ev_mul_tilt(w):
+    import lentil
+    r = w.W * lentil.Tilt(x=1e-6, y=-2e-6)          # must not touch the wavefront it was given
+    r2 = w.W * lentil.Tilt(x=1e-6, y=-2e-6)
+    return (dig_wf(w.W), 'tilt'), (dig_wf(r), dig_wf(r2))
+
+
+def ev_mul_again(w):
+    import lentil
+    r = lentil.Wavefront(WL, tilt=[2e-6, 0]) * w.P * lentil.Tilt(x=0, y=1e-6)
+    return (dig_plane(w.P), 'again'), dig_wf(r)
+
+
 def ev_prop_dft(w):
     import lentil
     w.W2 = lentil.propagate_dft(w.W, DU, shape=(6, 5), oversample=2)
@@ -346,7 +359,7 @@ hasAny = lambda w: (w.W2 is not None) or hasW(w)
 always = lambda w: True
 EVENTS = {
     'mkP_mask': (always, ev_mkP_mask, {'P'}), 'mkP': (always, ev_mkP, {'P'}), 'mkP_seg': (always, ev_mkP_seg, {'P'}),
-    'mul': (hasP, ev_mul, {'W'}), 'prop_dft': (hasW, ev_prop_dft, {'W2'}), 'prop_fft': (lambda w: hasW(w) and not any(f.tilt for f in w.W.data), ev_prop_fft, {'W2', 'SCR'}),
+    'mul': (hasP, ev_mul, {'W'}), 'mul_tilt': (hasW, ev_mul_tilt, set()), 'mul_again': (hasP, ev_mul_again, set()), 'prop_dft': (hasW, ev_prop_dft, {'W2'}), 'prop_fft': (lambda w: hasW(w) and not any(f.tilt for f in w.W.data), ev_prop_fft, {'W2', 'SCR'}),
     'fit_copy': (hasP, ev_fit_copy, {'P'}), 'fit_inplace': (hasP, ev_fit_inplace, {'P'}),
     'opd_add': (hasP, ev_opd_add, {'P'}), 'opd_add_b': (hasP, ev_opd_add_b, {'P'}), 'rescale': (hasP, ev_rescale, set()),
     'dft2_a': (always, ev_dft2_a, {'HOLD'}), 'dft2_b': (always, ev_dft2_b, set()), 'dft2_c': (always, ev_dft2_c, set()), 'idft2': (always, ev_idft2, set()),
